@@ -289,7 +289,7 @@ def generate(ctx):
             yield 'regrid_batch', {'src': src, 'tgt': tgt, 'skipna': skipna, 'lead': lead, 'patterns': batch_pats[r % 5],
                                    'model': bool(small), 'fseed': int(rng.integers(0, 2 ** 31))}
     # full ConservativeRegridder
-    n2 = 14 if quick else 60
+    n2 = 12 if quick else 60
     pats = ['none', 'single', 'row', 'all', 'blob', 'lonline', 'band']
     fkinds = ['random', 'random', 'integer', 'delta', 'zonal', 'zero']
     def offs(n): return [0.0, 0.05, 0.3, math.pi / n, -0.3, 1.5 * PERIOD / n, 7.0, -PERIOD - 0.1]
@@ -324,7 +324,7 @@ def generate(ctx):
     for k, (src, tgt, ident, model) in enumerate(special):
         tgt = dict(src) if tgt is None else tgt
         ctx.count('2d:special ' + ('identity' if ident else 'same count, other spacing' if src['nlat'] == tgt['nlat'] and src['nlon'] == tgt['nlon'] else 'tall/wide/fine vs coarse'))
-        for skipna, pat in ((0, 'none'), (1, 'band'), (0, 'single')):
+        for skipna, pat in (((0, 'none'), (1, 'band')) if quick else ((0, 'none'), (1, 'band'), (0, 'single'), (1, 'row'))):
             yield 'regrid2d', {'src': src, 'tgt': tgt, 'skipna': skipna, 'pattern': pat, 'model': bool(model), 'fkind': 'random',
                                'identity': bool(ident), 'forms': k == 0, 'fseed': int(rng.integers(0, 2 ** 31))}
     # configurations differing in one field, evaluated in both orders in one process
@@ -580,6 +580,8 @@ def r_hybrid(ctx, a):
         ctx.oracle_close('hybrid bounds are a/sp + b', hb, hbr, scale=1.0)
         _vert_oracles(ctx, 'hybrid->sigma', w, hbr, tb, col, ocol)
         cov = _ov1(tb[:-1], tb[1:], hbr[0], hbr[-1])
+        ctx.oracle('hybrid->sigma: an output layer is NaN exactly when it misses the source range', bool(np.array_equal(np.isnan(ocol), cov == 0)),
+                   {'nan': np.isnan(ocol).astype(int).tolist(), 'missed': (cov == 0).astype(int).tolist()})
         ctx.count('hybrid:' + ('some target layers miss the source range (NaN)' if np.any(cov == 0) else 'all target layers hit the source range'))
         ctx.count('hybrid:' + ('fully covered' if np.all(cov == np.diff(tb)) else 'partially covered'))
 
